@@ -83,6 +83,7 @@ class Labels:
         self.region = set(region) if region is not None else None
         self.seed = seed
         self.lab = {}
+        self.lab_f = {}      # (local, field index) -> labels, for tuple / struct aggregates (field-sensitive)
         self.opaque = tuple(opaque)
         self.call_labels = call_labels
         if param_labels:
@@ -92,7 +93,18 @@ class Labels:
         self._run()
 
     def place_labels(self, p):
-        out = set(self.lab.get(p[0], ()))
+        out = None
+        # field-sensitive read of a locally built tuple / struct: `(_t.1 as Ok).0` only sees what went into field 1
+        for e in p[1:]:
+            if e == "*":
+                continue
+            if isinstance(e, list) and e[0] == "d":
+                continue
+            if isinstance(e, list) and e[0] == "f" and (p[0], e[1]) in self.lab_f:
+                out = set(self.lab_f[(p[0], e[1])])
+            break
+        if out is None:
+            out = set(self.lab.get(p[0], ()))
         s = self.seed(p) if self.seed else None
         if s:
             out |= set(s)
@@ -130,6 +142,13 @@ class Labels:
                     new = set()
                     for p in _rv_places(s[2]):
                         new |= self.place_labels(p)
+                    if s[2][0] == "agg" and len(s[1]) == 1 and s[2][1][0] in ("tuple", "adt"):
+                        for i, o in enumerate(s[2][2]):
+                            ls = self.operand_labels(o)
+                            cur = self.lab_f.setdefault((s[1][0], i), set())
+                            if not ls <= cur:
+                                cur |= ls
+                                changed = True
                     if new:
                         changed |= self._add(s[1][0], new)
                 t = blk["t"]
